@@ -445,7 +445,7 @@ def lk8(ctx, flavours):
                     elif last in ('is_ok', 'is_some'):
                         pol = 'success' if truth else 'failure'
                 if pol == 'success':
-                    waits.append('left at %s only when %s succeeds' % (F.where(b, x), ', '.join(sorted({c[1].split('::')[-1] for c in calls if c[1] not in ACQ and not c[1].startswith('std::result') and not c[1].startswith('std::option')})[:3]) or 'the locked operation'))
+                    waits.append('left at %s only when %s succeeds' % (F.where(b, x), ([c[1].split('::')[-1] for c in calls if c[1] in F.bodies] or ['the locked operation'])[0]))
             if waits and not driven:
                 bad.append('loop at %s %s and repeats it on failure: it waits for another thread' % (F.where(b, h), '; '.join(waits)))
         out.append(Obl('LK8', b['q'], b['span'], 'no retry-until-success loop around a locked operation (%d loop(s))' % n, not bad, '; '.join(bad) if bad else 'every loop is driven by its data'))
